@@ -68,7 +68,9 @@ inductive Event
   | hs (c : Nat) (ty : Ty) (k : CRef) (resp : RespRef)      -- every other well-formed handshake request
   | mal (c : Nat)                                           -- payload that is not JSON
   | ban (ip : Nat) | unban (ip : Nat)                       -- BruteForceProtector.BanIP / UnbanIP (or expiry of a ban)
-  | bl (ip : Nat) | unbl (ip : Nat)                         -- IPManager.AddToBlacklist / RemoveFromBlacklist
+  | bl (ip : Nat) | unbl (ip : Nat)                         -- IPManager.AddToBlacklist / RemoveFromBlacklist (one address)
+  | blr (g : Nat) | unblr (g : Nat)                         -- the same for a CIDR range: range `g` covers addresses 2g, 2g+1
+  | restart                                                 -- a new IPManager over the same storage replaces the live one
   | refill (ip : Nat)                                       -- time passes for the anonymous-connection limiter
   | exp (k : Nat) | del (k : Nat) | strip (k : Nat) (st : SecState)   -- credentials expire / config deleted / stored secret becomes `st`
 deriving DecidableEq, Repr
@@ -94,7 +96,13 @@ structure Env where
   usedSeen : List Nat := []
   xban : Nat → Bool := fun _ => false       -- ghost: banned by an explicit `ban` event (⊆ banned)
   bl : Nat → Bool := fun _ => false         -- IPManager.blacklist
+  blr : Nat → Bool := fun _ => false        -- IPManager.blacklist, CIDR entries (per range)
   cl : Nat → ClientConfigT := fun _ => {}   -- ClientConfig per client number
+
+/-- `IPManager.findInList(ip, blacklist) != nil`: an exact entry for the address or a CIDR entry whose range contains
+it.  The blacklist is persisted (`saveToStorage` / `removeFromStorage`) and reloaded by `NewIPManager`
+(`loadFromStorage`), so it is the same for the live instance and for one created later over the same storage. -/
+def Env.blocked (g : Env) (ip : Nat) : Bool := g.bl ip || g.blr (ip / 2)
 
 /-- what a written HandshakeResponse looks like (or that none was written) -/
 inductive RespObs | ok | new (k : Nat) | ch (n : Nat) | fail | none | na
@@ -146,6 +154,9 @@ def Env.track (g : Env) (now nc : Nat) (e : Event) (r : RespObs) : Env :=
   | .unban ip => { g with xban := upd g.xban ip false }
   | .bl ip => { g with bl := upd g.bl ip true }
   | .unbl ip => { g with bl := upd g.bl ip false }
+  | .blr r => { g with blr := upd g.blr r true }
+  | .unblr r => { g with blr := upd g.blr r false }
+  | .restart => g
   | .refill _ => g
   | .exp k => if k < nc && !(g.cl k).deleted then { g with cl := upd g.cl k { g.cl k with ExpiresAt := some (now - 1) } } else g
   | .del k => if k < nc then { g with cl := upd g.cl k { g.cl k with deleted := true } } else g
@@ -165,7 +176,7 @@ def recordFailure (s : Srv) (ip : Nat) : Srv :=
 def recordSuccess (s : Srv) (ip : Nat) : Srv := { s with fails := upd s.fails ip 0 }
 
 /-- `IPManager.IsAllowed` -/
-def isAllowed (s : Srv) (ip : Nat) : Bool := !s.env.bl ip
+def isAllowed (s : Srv) (ip : Nat) : Bool := !s.env.blocked ip
 /-- `BruteForceProtector.IsBanned` -/
 def isBanned (s : Srv) (ip : Nat) : Bool := s.banned ip
 
@@ -308,6 +319,9 @@ def stepCore (s : Srv) : Event → Srv × RespObs
   | .unban ip => ({ s with banned := upd s.banned ip false }, .na)
   | .bl _ => (s, .na)
   | .unbl _ => (s, .na)
+  | .blr _ => (s, .na)
+  | .unblr _ => (s, .na)
+  | .restart => (s, .na)      -- `loadFromStorage` restores exactly what `saveToStorage`/`removeFromStorage` kept
   | .refill ip => ({ s with rlUsed := upd s.rlUsed ip 0 }, .na)
   | .exp _ => (s, .na)
   | .del _ => (s, .na)
@@ -343,7 +357,7 @@ def obsState (s : Srv) : ObsState :=
   { conns := (List.range s.nConns).map (fun c => (s.ctl c).map connObs),
     lookups := (List.range s.nClients).map s.reg,
     bans := (List.range s.nIps).map s.banned,
-    bls := (List.range s.nIps).map s.env.bl }
+    bls := (List.range s.nIps).map s.env.blocked }
 
 def run (s : Srv) : List Event → List StepObs
   | [] => []
